@@ -31,7 +31,10 @@ def hook_factory(plan):
     """plan['handler'] : 'ok' | 'err'"""
     def hook(world, interp, name, args, t, body):
         seg = last_seg(name)
-        r = registry_abs.hook(interp, name, args, t, body)
+        if plan.get('state_hook') is not None:
+            r = plan['state_hook'](interp, name, args, t, body)
+        else:
+            r = registry_abs.hook(interp, name, args, t, body)
         if r is not None:
             return r
         if name == 'http::request::Request::into_parts':
@@ -39,10 +42,11 @@ def hook_factory(plan):
                                                         Cell(('opaque', 'extensions')), Cell(UNIT)])
             return ('tuple', [Cell(parts), Cell(('hbody', 'request'))])
         if name == 'http::uri::Uri::path':
-            return ('ref', Cell(('key', 'p')))
+            return ('ref', Cell(('key', plan.get('path', 'p'))))
         if name.endswith('::OpaqueMessageHandler::try_handle'):
             h = interp.deref_all(args[0])
-            world.trace.append(('handle', h[1] if h and h[0] == 'handler' else h))
+            inst_ = registry_abs.find_instance(interp, args[0]) if not (h and h[0] == 'handler') else None
+            world.trace.append(('handle', h[1] if h and h[0] == 'handler' else (inst_ if inst_ is not None else h)))
             body_ty = None
             if plan['handler'] == 'ok':
                 return ('future', 'ready', ok(world.make_body(('hbody', 'reply'))))
@@ -112,14 +116,23 @@ def check_dispatch(ctx, facts, rule, cfg_label=''):
         if len(ents) != 1:
             raise Unmodelled('connection handler not identified by signature (%d candidates)' % len(ents))
         entry, ups = ents[0]
-        roles = registry_abs.Roles(facts)
+        try:
+            registry_abs.build_state(facts, True)
+            roles = None        # the registry is built through the server's own constructor and add_service (any representation)
+        except (Unmodelled, absint.PanicPath, IndexError, TypeError, KeyError, AttributeError):
+            roles = registry_abs.Roles(facts)
         out = {}
         for registered in (False, True):
             for answer in ('ok', 'err'):
                 def run(choices, registered=registered, answer=answer):
                     plan = {'handler': answer}
+                    if roles is None:
+                        state, shook, upath = registry_abs.build_state(facts, registered)
+                        plan['state_hook'] = shook
+                        plan['path'] = upath
                     world = ServerWorld(facts, plan)
-                    state = roles.make({'S': {'h:p'}} if registered else {'T': {'h:other'}}, {'h:p': 'H'} if registered else {'h:other': 'X'})
+                    if roles is not None:
+                        state = roles.make({'S': {'h:p'}} if registered else {'T': {'h:other'}}, {'h:p': 'H'} if registered else {'h:other': 'X'})
                     upv = {}
                     for i, ty in ups.items():
                         if ty.startswith('http::request::Request<'):
